@@ -1764,3 +1764,115 @@ func preSignHandsBackWhatItGot(c *Ctx, r *Report, rule string) {
 	}
 	r.Floor(rule, "PreSign implementations", n, 1)
 }
+
+// preSignAdditionsAreInTheView: what a codec's PreSign writes into the entry (the sealed links and their nonce
+// go into the additional data) has to be part of every view Normalize builds — of the pre-signed one above
+// all, which is what gets signed: a field PreSign fills and the signed view leaves out can be replaced in the
+// block by anyone without invalidating the signature.
+func preSignAdditionsAreInTheView(c *Ctx, r *Report, rule string) {
+	p := c.P
+	entT := p.Named("entry", "Entry")
+	st := entT.Underlying().(*types.Struct)
+	fieldByLower := map[string]*types.Var{}
+	for i := 0; i < st.NumFields(); i++ {
+		fieldByLower[strings.ToLower(st.Field(i).Name())] = st.Field(i)
+	}
+	added := map[*types.Var]token.Pos{}
+	nPre := 0
+	for _, fn := range p.Fns {
+		if fn.Body == nil || fn.Decl == nil || fn.Decl.Recv == nil || fn.Decl.Name.Name != "PreSign" {
+			continue
+		}
+		nPre++
+		fn := fn
+		walkNoLit(fn.Body, func(n ast.Node) bool {
+			call, ok := n.(*ast.CallExpr)
+			if !ok {
+				return true
+			}
+			se, ok := ast.Unparen(call.Fun).(*ast.SelectorExpr)
+			if !ok || !strings.HasPrefix(se.Sel.Name, "Set") {
+				return true
+			}
+			if t := p.TypeOf(fn, se.X); t == nil || !(isNamed(t, p.pkgPath("iface"), "IPFSLogEntry") || namedOf(t) == entT) {
+				return true
+			}
+			name := strings.ToLower(strings.TrimPrefix(se.Sel.Name, "Set"))
+			for _, suffix := range []string{"", "value"} {
+				if f := fieldByLower[strings.TrimSuffix(name, suffix)]; f != nil {
+					if _, seen := added[f]; !seen {
+						added[f] = call.Pos()
+					}
+				}
+			}
+			return true
+		})
+	}
+	norm := p.FuncI("entry", "", "Normalize")
+	setsIn := func(fn *Fn, n ast.Node, f Facts) {
+		walkNoLit(n, func(nd ast.Node) bool {
+			switch x := nd.(type) {
+			case *ast.AssignStmt:
+				for _, l := range x.Lhs {
+					if v, base := p.FieldSel(fn, l); v != nil && base != nil {
+						if t := p.TypeOf(fn, base); t != nil && namedOf(t) == entT {
+							f["set|"+v.Name()] = true
+						}
+					}
+				}
+			case *ast.CompositeLit:
+				if t := p.TypeOf(fn, x); t != nil && namedOf(t) == entT {
+					for _, el := range x.Elts {
+						if kv, ok := el.(*ast.KeyValueExpr); ok {
+							if id, ok := kv.Key.(*ast.Ident); ok {
+								f["set|"+id.Name] = true
+							}
+						}
+					}
+				}
+			}
+			return true
+		})
+	}
+	fl := &Flow{P: p, Fn: norm, Entry: Facts{}}
+	fl.Node = func(n ast.Node, f Facts) {
+		setsIn(norm, n, f)
+		walkNoLit(n, func(nd ast.Node) bool {
+			if call, ok := nd.(*ast.CallExpr); ok {
+				if cf := p.Callee(norm, call); cf != nil {
+					if h := p.ByObj[cf]; h != nil && h.Body != nil && h != norm && p.firstParty(cf.Pkg()) {
+						setsIn(h, h.Body, f) // a helper that fills part of the view
+					}
+				}
+			}
+			return true
+		})
+	}
+	fl.Run()
+	var fields []*types.Var
+	for f := range added {
+		fields = append(fields, f)
+	}
+	sort.Slice(fields, func(i, j int) bool { return fields[i].Name() < fields[j].Name() })
+	nRet := 0
+	fl.Visit(func(_ *cfgBlk, n ast.Node, before Facts) {
+		ret, ok := n.(*ast.ReturnStmt)
+		if !ok {
+			return
+		}
+		nRet++
+		at := Facts{}
+		for k := range before {
+			at[k] = true
+		}
+		fl.Node(ret, at)
+		for _, f := range fields {
+			r.Check(at["set|"+f.Name()], rule, r.Key(rule, norm, "view-has", f.Name()), ret.Pos(),
+				"the view Normalize returns here carries "+f.Name()+", which PreSign writes into",
+				fmt.Sprintf("Normalize returns a view without %s at %s, and a codec's PreSign writes into that field (%s): the sealed links and their nonce are then not part of the bytes that are signed — whoever holds the block can replace them, and with them the entry's predecessors, without invalidating the signature", f.Name(), p.Pos(ret.Pos()), p.Pos(added[f])))
+		}
+	})
+	r.Floor(rule, "PreSign implementations examined", nPre, 1)
+	r.Floor(rule, "entry fields PreSign writes into", len(fields), 1)
+	r.Floor(rule, "returns of Normalize", nRet, 2)
+}
